@@ -6,6 +6,8 @@ apply it to /repo (git apply), run the named check, undo it (git checkout),
 and compare with the expectation:
   {"check": "C01", "expect": "violation", "key_contains": "..."}   must exit 1 and name the instance
   {"check": "C01", "expect": "silent"}                              behaviour-preserving edit: must exit 0
+  {"check": "C10", "expect": "new-site-only"}                       behaviour-preserving edit with new code that needs a fresh argument:
+                                                                    exit 1, and every report is of the "unverified site" kind
 Usage: selftest/run.py [name-substring ...]
 """
 import json, os, subprocess, sys
@@ -38,6 +40,11 @@ def main():
                     ok = r.returncode == 1 and "VIOLATION property=%s" % exp["check"] in out and exp.get("key_contains", "") in out
                 elif exp["expect"] == "silent":
                     ok = r.returncode == 0 and "VIOLATION" not in out
+                elif exp["expect"] == "new-site-only":
+                    # a behaviour-preserving edit that introduces a potential-panic site / narrowing cast which no automatic rule can
+                    # decide: the only acceptable report is "unverified site" (see DESIGN 11.2), nothing else may fire
+                    lines = [l for l in out.splitlines() if l.strip().startswith("rule=")]
+                    ok = r.returncode == 1 and lines and all(("not discharged by any guard, type or audited argument" in l) or (" narrows " in l and "silently" in l) for l in lines)
                 else:
                     ok = False
                 print("%s %s [%s expects %s] rc=%d" % ("ok  " if ok else "FAIL", name, exp["check"], exp["expect"], r.returncode))
